@@ -76,8 +76,9 @@ pub fn check(thorough: bool, _seed: u64) -> Check {
     let u2 = us.clone();
     let body: Body = Box::new(move |unit, cx| {
         let u = &u2[unit];
-        let kinds = if u.positive { 4 } else { 2 };
-        let kind = cx.choose(kinds);
+        // kinds 0,1 and 4,5 for every shape; 2,3 (pieces that need positive arguments to be told apart) for positive shapes
+        let kinds = if u.positive { 6 } else { 4 };
+        let kind = { let k = cx.choose(kinds); if u.positive { k } else { [0, 1, 4, 5][k] } };
         let x = *cx.pick(&u.alpha);
         let ends = &u.ends;
         let k = ends.len();
@@ -117,7 +118,11 @@ pub fn check(thorough: bool, _seed: u64) -> Check {
             0 => one(&probe_pw(ends), ends, x, "Probe", cx),
             1 => one(&poly1_pw(ends), ends, x, "Poly1", cx),
             2 => one(&poly3_pw(ends), ends, x, "Poly3", cx),
-            _ => one(&logpoly8_pw(ends), ends, x, "Log<Poly8>", cx),
+            3 => one(&logpoly8_pw(ends), ends, x, "Log<Poly8>", cx),
+            // log-family piece types whose values can be told apart at any argument, negative ones included
+            // (Log<Poly0> is a constant, IntOfLog<Poly0> is k + c*v)
+            4 => one(&Piecewise { segments: ends.iter().enumerate().map(|(i, &e)| Segment { end: e, poly: Log(Poly0(10.0 + i as f64)) }).collect() }, ends, x, "Log<Poly0>", cx),
+            _ => one(&Piecewise { segments: ends.iter().enumerate().map(|(i, &e)| Segment { end: e, poly: IntOfLog { k: 100.0 * (i as f64 + 1.0), poly: Poly0(0.5 + i as f64) } }).collect() }, ends, x, "IntOfLog<Poly0>", cx),
         }
     });
     let ph = Phase {
@@ -139,7 +144,7 @@ pub fn check(thorough: bool, _seed: u64) -> Check {
                       else {"all non-decreasing end lists of length 1..5 over {1..5} and of length 1..4 over the nasty set {-MAX,-1,-2^-1022,-0.0,+0.0,5e-324,1,succ(1),1e300,MAX,+inf}"},
             "every_length": "1..n for every n up to 300 (600 thorough), plain and with the middle end duplicated", "long_lists": "1..n for n=6..17 (40 thorough) and for the threshold sizes (8..257 quick, 7..1025 thorough), plain and with duplicate runs; lists over {-1e6,-1,1e-7,1e6,1e7}, {1,1+1e-10,1+2e-10,1+1e-9}, {1e5,1e5(1+1e-12),1e6,3e6,1e7}",
             "queries": "order-complete alphabet A(ends): -inf,-MAX, below first end, each end and both one-ulp neighbours, >=2 interior points per cell, above last end, MAX, +inf",
-            "piece_types": "Probe (identifies piece and argument), Poly1, Poly3, Log<Poly8> (positive ends only)"
+            "piece_types": "Probe (identifies piece and argument), Poly1, Log<Poly0>, IntOfLog<Poly0> for every shape; Poly3, Log<Poly8> for positive ends"
         }),
     };
     // every number of pieces for piece types of every size (thresholds in segments and in bytes are crossed for each type)
